@@ -118,7 +118,7 @@ impl Report {
 
     pub fn violation(&mut self, signature: impl Into<String>, what: impl Into<String>, replay: Value) {
         self.violations.push(Violation {
-            signature: signature.into(),
+            signature: signature.into().replace(' ', "_"),
             what: what.into(),
             replay,
         });
@@ -346,4 +346,14 @@ pub fn key128(fields: &[u64]) -> u128 {
         b = b.rotate_left(17);
     }
     ((a as u128) << 64) | b as u128
+}
+
+pub fn addr_hash(a: &std::net::SocketAddr) -> u64 {
+    match a {
+        std::net::SocketAddr::V4(v) => ((u32::from(*v.ip()) as u64) << 16) | v.port() as u64,
+        std::net::SocketAddr::V6(v) => {
+            let o = v.ip().octets();
+            hash64(&o) ^ ((v.port() as u64) << 48) ^ 0x6666
+        }
+    }
 }
